@@ -430,3 +430,46 @@ func vhUnquote(s string) string {
 	}
 	return s
 }
+
+// VH_C17_websocket_frame: the websocket text frame around a reply of any length decodes (RFC 6455: 7-bit length,
+// 126 + 16-bit length, 127 + 64-bit length) to exactly the reply; lengths around both boundaries are symbolic.
+//verif:cfg b_payload_length=any_of_118..134|65528..65543_(symbolic) b_payload=2_symbolic_bytes_at_both_ends ignorego=1 maxalloc=200000
+func VH_C17_websocket_frame() {
+	base := [2]int{118, 65528}[vchoose(2)]
+	d := vnondetInt()
+	vassume(d >= 0 && d <= 16)
+	n := base + vconcretize(d)
+	data := make([]byte, n)
+	for i := range data {
+		data[i] = 'a' + byte(i%26)
+	}
+	first, last := vnondetByte(), vnondetByte()
+	data[0], data[n-1] = first, last
+	var w vhBuf
+	err := WriteWebSocketMessage(&w, data)
+	vassert("C17.K3.ws_no_error", err == nil)
+	out := w.b
+	vassert("C17.K3.ws_text_frame_header", len(out) >= 2 && out[0] == 0x81)
+	hl, plen := 2, int(out[1])
+	switch {
+	case out[1] == 126:
+		hl, plen = 4, int(out[2])<<8|int(out[3])
+		vassert("C17.K3.ws_16bit_length_only_when_needed", plen >= 126)
+	case out[1] == 127:
+		hl, plen = 10, 0
+		for i := 2; i < 10; i++ {
+			plen = plen<<8 | int(out[i])
+		}
+		vassert("C17.K3.ws_64bit_length_only_when_needed", plen > 0xFFFF)
+	}
+	vassert("C17.K3.ws_frame_length_is_payload_length", plen == n && len(out) == hl+n)
+	vassert("C17.K3.ws_payload_intact", out[hl] == first && out[hl+n-1] == last && out[hl+1] == data[1])
+	vobs("ws", n, hl)
+}
+
+type vhBuf struct{ b []byte }
+
+func (w *vhBuf) Write(p []byte) (int, error) {
+	w.b = append(w.b, p...)
+	return len(p), nil
+}
